@@ -35,6 +35,8 @@ def instrument(ctx):
         src = src[:i + 2] + "\t" + (YIELD % point) + "\n" + src[i + 2:]
         n += 1
     counts["storage.go"] = n
+    src, nl = loaded_points(src)
+    counts["storage.go:row-read points"] = nl
     dst = os.path.join(outdir, "storage.go")
     open(dst, "w").write(src)
     overlay[path] = dst
@@ -68,6 +70,68 @@ def instrument(ctx):
         open(dst, "w").write("\n".join(out))
         overlay[path] = dst
     return overlay, counts
+
+def _match_close(src, i, open_ch, close_ch):
+    """index of the bracket that closes the one at src[i] (strings / runes / comments skipped), or -1"""
+    depth, j, n = 0, i, len(src)
+    while j < n:
+        c = src[j]
+        if c == '"' or c == "'":
+            j += 1
+            while j < n and src[j] != c:
+                j += 2 if src[j] == "\\" else 1
+        elif c == "`":
+            j = src.find("`", j + 1)
+            if j < 0:
+                return -1
+        elif src.startswith("//", j):
+            j = src.find("\n", j)
+            if j < 0:
+                return -1
+            continue
+        elif c == open_ch:
+            depth += 1
+        elif c == close_ch:
+            depth -= 1
+            if depth == 0:
+                return j
+        j += 1
+    return -1
+
+def loaded_points(src):
+    """A parking point between the moment LoadUserProfile has the row and its return: `verifYield("Loaded")`
+    (a) as the first statement of every select clause of LoadUserProfile that RECEIVES A VALUE from a channel
+    (`case x := <-ch:` - the row read by the helper goroutine arrives here) and (b) after every statement of the
+    function that ends with a row scan (`….Scan(…)` alone on its statement; the helper goroutine is not a
+    scheduled request, so the point inside it is inert).  Returns (source, number of points)."""
+    m = re.search(r"func \(\w+ \*RuntimeState\) LoadUserProfile\(", src)
+    if not m:
+        return src, 0
+    i = src.find("{\n", m.end())
+    if i < 0:
+        return src, 0
+    end = _match_close(src, i, "{", "}")
+    if end < 0:
+        return src, 0
+    body = src[i:end]
+    inserts = []      # (offset in body, text)
+    for c in re.finditer(r"\n([ \t]*)case\s+[\w, ]+:?=\s*<-\s*[\w.]+\s*:[ \t]*(?=\n)", body):
+        inserts.append((c.end(), "\n" + c.group(1) + "\t" + (YIELD % "Loaded")))
+    for c in re.finditer(r"\.Scan\(", body):
+        j = _match_close(body, c.end() - 1, "(", ")")
+        if j < 0:
+            continue
+        k = body.find("\n", j)
+        if k < 0 or body[j + 1:k].strip() != "":
+            continue
+        ls = body.rfind("\n", 0, c.start()) + 1
+        # indentation of the line on which the statement starts (walk back over continuation lines is not needed:
+        # the point goes on its own line after the statement)
+        ind = re.match(r"[ \t]*", body[ls:]).group(0)
+        inserts.append((k, "\n" + ind + (YIELD % "Loaded")))
+    for off, txt in sorted(inserts, reverse=True):
+        body = body[:off] + txt + body[off:]
+    return src[:i] + body + src[end:], len(inserts)
 
 _UNIT_MS = {"Nanosecond": 1e-6, "Microsecond": 1e-3, "Millisecond": 1.0, "Second": 1000.0, "Minute": 60000.0, "Hour": 3600000.0}
 
@@ -188,12 +252,16 @@ def run(ctx):
                             "c16_delete_undone_refuted", "c16_publication_safe", "c16_split_unseal_refuted",
                             "c16_u2f_once_at_storage_granularity", "c16_u2f_double_spend_refuted", "c16_ssegments_are_runs",
                             "c16_no_write_after_answer", "c16_respond_is_last", "c16_abandoned_write_refuted",
-                            "c16_oauth_pool_disciplined", "c16_lock_copy_refuted", "c16_blocked_only_by_running_request"])
+                            "c16_oauth_pool_disciplined", "c16_lock_copy_refuted", "c16_blocked_only_by_running_request",
+                            "c16_u2f_no_replay_after_overlap", "c16_u2f_no_replay_after_overlap_seg", "c16_u2f_no_replay_replayed_schedule",
+                            "c16_u2f_reissue_replay_refuted", "c16_reissue_disciplined", "c16_reissue_invisible_at_storage_granularity",
+                            "c16_boot_no_replay_after_overlap", "c16_oauth_no_replay_after_overlap",
+                            "c16_load_linearizable", "c16_reader_leaves_no_trace", "c16_view_login_are_readers", "c16_planting_reader_refuted"])
     gen = ctx.extract()
     files = ["kmd/common.go", "kmd/creds.go", "kmd/c16.go", "kmd/c16_stall.go", os.path.join(ctx.work, "gen", "mux_gen.go")]
     overlay, counts = instrument(ctx)
-    good = counts.get("storage.go") == 3
-    ctx.obligations.append(("instrumentation: parking points inserted %s" % counts, good, "storage.go needs 3"))
+    good = counts.get("storage.go") == 3 and counts.get("storage.go:row-read points", 0) >= 1
+    ctx.obligations.append(("instrumentation: parking points inserted %s" % counts, good, "storage.go needs 3 + at least one point after the row read of LoadUserProfile"))
     if not good:
         ctx.broken.append(("correspondence", "instrumentation", "could not find LoadUserProfile/SaveUserProfile/DeleteUserProfile in storage.go: %s" % counts))
     hold, timeouts = storage_hold_ms(ctx)
@@ -228,6 +296,21 @@ def run(ctx):
                     if i < len(lines):
                         first = lines[i]
                 ctx.broken.append(("correspondence", "c16_mismatches", {"first_mismatch": first, "indices": (mism or "")[:400]}))
+            n = res.get("c16r_ncases", "?")
+            mism = res.get("c16r_mismatches")
+            label = "a one-time value presented once more after each enumerated schedule in which it was honoured: answer of the real handler = Model.Conc.run_seg (%s replays)" % n
+            if mism == "[]":
+                ctx.obligations.append(("corr:" + label, True, "no mismatch"))
+            else:
+                ctx.obligations.append(("corr:" + label, False, "mismatch indices %s" % (mism or "missing")[:200]))
+                first = None
+                i = first_index(mism)
+                p = os.path.join(ctx.work, "CasesC16R.idx")
+                if i is not None and os.path.exists(p):
+                    lines = open(p).read().split("\n")
+                    if i < len(lines):
+                        first = lines[i]
+                ctx.broken.append(("correspondence", "c16r_mismatches", {"first_mismatch": first, "indices": (mism or "")[:400]}))
             n = res.get("c16u_ncases", "?")
             mism = res.get("c16u_mismatches")
             label = "unseal || key-serving requests from a sealed start, every enumerated schedule: answers of the real handlers = Model.Conc.run_seg (%s schedules)" % n
